@@ -21,12 +21,12 @@ CHECKS.update({
             "DESIGN.md §4 C01"),
     "C02": ("model_checking", "E2",
             "explicit-state BFS over client request histories against a real broker.Service (in-memory connections, independent MQTT client codec), states deduplicated by trie dump + per-connection counters + reference model",
-            "Every sequence of subscribe/unsubscribe/link/failing requests by two clients to depth 3 (quick) / 4 (thorough) over xor-colliding, repeated and wildcard filters is replayed on a real broker; in every reached state every client publishes to 9 channels with and without me=0 and through links, and each client's inbox is compared with the reference (exactly-once, topic, payload); failing requests must answer emitter/error/ and change nothing. Further searches: one connection juggling three xor-colliding filters (depth 7/8), a fault variant in which a third subscriber's socket fails every write while the two healthy clients must be served as before, look-alike channel names (case, long common prefix, punctuation), a large-payload probe, and a part in which a second publisher's whole delivery is inserted after the first socket write of another delivery to the same subscriber (payload sizes 10 B - 60 KB).",
+            "Every sequence of subscribe/unsubscribe/link/failing requests by two clients to depth 3 (quick) / 4 (thorough) over xor-colliding, repeated and wildcard filters is replayed on a real broker; in every reached state every client publishes to 9 channels with and without me=0 and through links, and each client's inbox is compared with the reference (exactly-once, topic, payload); failing requests must answer emitter/error/ and change nothing. Further searches: one connection juggling three xor-colliding filters (depth 7/8), a fault variant in which a third subscriber's socket fails every write while the two healthy clients must be served as before, look-alike channel names (case, long common prefix, punctuation), a variant on a broker configured with limit.readRate = 20 in which every state is reached and probed through the read throttle (throttled packets must be delayed, not dropped), a large-payload probe, and a part in which a second publisher's whole delivery is inserted after the first socket write of another delivery to the same subscriber (payload sizes 10 B - 60 KB).",
             "clients act one acknowledged request at a time (histories, not schedules); single broker; level names outside the alphabet are not explored.",
             "DESIGN.md §4 C02"),
     "C07": ("model_checking", "E2",
             "explicit-state BFS over publish/last-will histories on a real broker with the real in-memory history store; 32 subscribe probes per state",
-            "Every sequence of publishes (plain/retain/ttl/retain+ttl x store/no-store key x 2 nested channels) and last wills to depth 3 (quick) / 5 (thorough) is replayed on a real broker; in every state the store content (channel, payload, ttl, contract) is compared with the reference and 32 subscriptions (filter x last x load permission x window) check that exactly the last N stored matching messages arrive before the SUBACK and live messages only after it. Two pubsub services over two stores linked through the real OnSurvey: messages published through different nodes are replayed on either node.",
+            "Every sequence of publishes (plain/retain/ttl/retain+ttl x store/no-store key x 2 nested channels, plus a 10 kB payload and a ttl above 2^31) and last wills to depth 3 (quick) / 5 (thorough) is replayed on a real broker; in every state the store content (channel, payload, ttl, contract) is compared with the reference and 32 subscriptions (filter x last x load permission x window) check that exactly the last N stored matching messages arrive before the SUBACK and live messages only after it. Two pubsub services over two stores linked through the real OnSurvey: messages published through different nodes are replayed on either node.",
             "histories run within seconds, ttl values far from expiry; in-memory badger provider (disk provider covered by C06/C15).",
             "DESIGN.md §4 C07"),
     "C08": ("fault_enumeration", "E4",
@@ -41,7 +41,7 @@ CHECKS.update({
             "DESIGN.md §4 C16"),
     "C18": ("model_checking", "E2",
             "explicit-state BFS over subscribe/unsubscribe/disconnect/presence-request histories of three clients on a real broker, FIFO barrier on the real presence queue",
-            "Every history to depth 3 (quick) / 5 (thorough) over 14 operations is replayed on a real broker; after every operation the watcher's inbox must hold exactly the expected subscribe/unsubscribe notifications (connection id and username checked), and in every state presence status requests for three channels must list exactly the connections the C02 reference says would receive a publish. A second search has one connection juggle three xor-colliding sub-channels of a watched channel, a third uses channels spelled like the broker's reserved words (presence/..., query/...); a plain status poll by the watcher is an alphabet letter (it must change nothing).",
+            "Every history to depth 3 (quick) / 5 (thorough) over 14 operations is replayed on a real broker; after every operation the watcher's inbox must hold exactly the expected subscribe/unsubscribe notifications (connection id and username checked), and in every state presence status requests for three channels must list exactly the connections the C02 reference says would receive a publish. A second search has one connection juggle three xor-colliding sub-channels of a watched channel, a third uses channels spelled like the broker's reserved words (presence/..., query/...), a fourth watches a channel whose sub-channels have 62-64 levels (the deepest the parser lets through); a plain status poll by the watcher is an alphabet letter (it must change nothing).",
             "single broker (cluster survey returns nothing); notifications awaited through a no-op pushed through the real queue.",
             "DESIGN.md §4 C18"),
 })
@@ -54,7 +54,7 @@ CHECKS.update({
             "DESIGN.md §4 C10"),
     "C11": ("exploration", "E3",
             "bounded-exhaustive enumeration of key-generation and link-extension requests through a real broker connection, decrypted results and behavioural grants compared with a reference",
-            "Every (parent kind incl. all 64 extendable masks, crafted expired/foreign/garbage parents) x 142 type strings x 3 ttls x 9 channels request goes through the real emitter/keygen/ handler; the decrypted key is checked clause by clause (no master bit, permissions within request and parent, contract/signature/master copied, expiry) and its grants through the real Authorize are compared in both directions with a string-level reference over 125 probe channels; extendable keys are tried for publish, subscribe, unsubscribe, presence and link auto-subscribe. Requests that omit every non-empty subset of {key, channel, type, ttl} are sent right after a complete successful request (what is not sent is not requested); channels include '.' and '..' levels. The first request each parent key was granted is repeated after all other requests with that key: same answer.",
+            "Every (parent kind incl. all 64 extendable masks, crafted expired/foreign/garbage parents) x 142 type strings x 3 ttls x 9 channels request goes through the real emitter/keygen/ handler; the decrypted key is checked clause by clause (no master bit, permissions within request and parent, contract/signature/master copied, expiry) and its grants through the real Authorize are compared in both directions with a string-level reference over 125 probe channels; extendable keys are tried for publish, subscribe, unsubscribe, presence and link auto-subscribe. Requests that omit every non-empty subset of {key, channel, type, ttl} are sent right after a complete successful request (what is not sent is not requested); channels include '.' and '..' levels. The first request each parent key was granted is repeated after all other requests with that key: same answer. Part 'http': every non-extendable parent (incl. expired/foreign/garbage) x 4 permission box sets x 2 ttls x 2 channels is posted to the real HTTP keygen form handler and the key on the rendered page is judged by the same clauses.",
             "one license version (v3); wildcard requests against keys are C03's business.",
             "DESIGN.md §4 C11"),
 })
@@ -96,7 +96,7 @@ CHECKS.update({
 CHECKS.update({
     "C17": ("model_checking", "E3+E1",
             "exhaustive enumeration of stream compositions (every chunking, EOF placement, matcher set, consumer buffer; every write/limiter/flush script; every websocket message/fragment composition) replayed against the real adapters + preemption-bounded exhaustive schedule exploration of the concurrent write path",
-            "(a) every stream of length <= 10/12 with every composition into socket reads through the real Listener.Serve sniffing loop; (b) every sequence of <= 4 small writes, and of <= 3 writes with sizes from {2, 4100, 8200, 66000} (thorough: 9 sizes, pairs), x every rate-limiter answer x every flush placement on the real listener.Conn; (c) two writers and the timer flush on the real listener.Conn under the controlled scheduler up to 2/3 deviations with a byte-level interleaving oracle; (d) every composition of <= 8 bytes into websocket messages with empty messages and control frames inserted, every fragmentation, 11 consumers incl. bufio.ReadByte, plus real gorilla framing (thorough).",
+            "(a) every stream of length <= 10/12 with every composition into socket reads through the real Listener.Serve sniffing loop; (b) every sequence of <= 4 small writes, and of <= 3 writes with sizes from {2, 4100, 8200, 66000} (thorough: 9 sizes, pairs), x every rate-limiter answer x every flush placement on the real listener.Conn; (c) two writers and the timer flush on the real listener.Conn under the controlled scheduler up to 2/3 deviations with a byte-level interleaving oracle; (e) 2-3 connections of different protocols accepted at the same time go through the real serve loop (shared matcher values, matcher.go instrumented) under the controlled scheduler: each must come out on the sub-listener the string-level rule names for its own stream, with its own bytes; (d) every composition of <= 8 bytes into websocket messages with empty messages and control frames inserted, every fragmentation, 11 consumers incl. bufio.ReadByte, plus real gorilla framing (thorough).",
             "fake sockets hand out scripted chunks; socket writes atomic; real sockets/TLS not modelled.",
             "DESIGN.md §4 C17"),
 })
